@@ -342,7 +342,9 @@ func main() {
 	// ---- part 2: process level ----
 	var hostile [][][]byte
 	interesting.Range(func(k, v any) bool { hostile = append(hostile, v.([][]byte)); return true })
+	tp := time.Now()
 	processLevel(run, hostile)
+	run.Logf("process-level part (server child) done: %d sequences in %.0f s", len(hostile), time.Since(tp).Seconds())
 	// mirror for the Go client: the hostile frames come from the server side
 	var cseqs [][][]byte
 	cseqs = append(cseqs, hostile...)
@@ -354,7 +356,9 @@ func main() {
 	for _, s := range []string{"0/", "2/", "4/", `51-["e",{"_placeholder":true,"num":-2}]`, `51-["m",{"bin":{"_placeholder":true,"num":-2}}]`, `61-3[{"_placeholder":true,"num":-1}]`} {
 		cseqs = append(cseqs, [][]byte{[]byte(s), {1, 2, 3}})
 	}
+	tp = time.Now()
 	clientMirror(run, cseqs)
+	run.Logf("client mirror done: %d sequences in %.0f s", len(cseqs), time.Since(tp).Seconds())
 	run.Finish()
 }
 
